@@ -225,7 +225,7 @@ theorem shape_king {p : Pos} {m : Move} (hb : p.board m.src = some (.king, p.stm
               p.has r Piece.rook p.stm && pathClear p m.src r && !attackedBy p p.stm.other m.src &&
                   !attackedBy p p.stm.other mid &&
                 !attackedBy p p.stm.other m.dst
-            | x, x_1 => false))) =
+            | _, _ => false))) =
     true) : Shape p m := by
   simp only [Bool.and_eq_true, Bool.or_eq_true] at h
   obtain ⟨hpr, h | h⟩ := h
@@ -235,7 +235,7 @@ theorem shape_king {p : Pos} {m : Move} (hb : p.board m.src = some (.king, p.stm
     refine shape_other hb hd (by decide) ?_ (by simp [hpr, h])
     simp only [isCastle, hb, Bool.true_and, beq_eq_false_iff_ne]
     omega
-  · simp only [Bool.and_eq_true, beq_iff_eq] at h
+  · simp only [beq_iff_eq] at h
     obtain ⟨⟨⟨⟨hsr, hsf⟩, hdr⟩, hdf⟩, hright, hm⟩ := h
     split at hm
     · rename_i r mid hr hmid
@@ -277,6 +277,117 @@ theorem shape_king {p : Pos} {m : Move} (hb : p.board m.src = some (.king, p.stm
         (hne ?_) (hne ?_) hB
       all_goals omega
     · cases hm
+
+theorem pawn_promo {p : Pos} {m : Move} (hb : p.board m.src = some (.pawn, p.stm))
+    (h : (if m.dst.rank = p.stm.lastRank then
+        match m.promo with
+        | some q => promoPieces.contains q
+        | none => false
+      else m.promo.isNone) = true) :
+    ∃ pc', movedMan p m = some (pc', p.stm) ∧ (pc' = .pawn ∨ pc' ≠ .pawn ∧ pc' ≠ .king) ∧
+      (pc' = .pawn → m.dst.rank ≠ p.stm.lastRank) ∧ (m.dst.rank ≠ p.stm.lastRank → pc' = .pawn) := by
+  cases hp : m.promo with
+  | none =>
+    refine ⟨.pawn, by simp [movedMan, hb, hp], Or.inl rfl, ?_, fun _ => rfl⟩
+    intro _ hl
+    simp [hl, hp] at h
+  | some q =>
+    have hl : m.dst.rank = p.stm.lastRank := by
+      apply Classical.byContradiction; intro hl; simp [hl, hp] at h
+    simp only [hl, if_true, hp] at h
+    refine ⟨q, by simp [movedMan, hb, hp], Or.inr ?_, ?_, fun h' => absurd hl h'⟩
+    · cases q <;> simp [promoPieces] at h ⊢
+    · intro hq; subst hq; simp [promoPieces] at h
+
+theorem shape_pawn {p : Pos} {m : Move} (hb : p.board m.src = some (.pawn, p.stm))
+    (hd : p.colorAt m.dst ≠ some p.stm)
+    (h : ((if m.dst.rank = p.stm.lastRank then
+        match m.promo with
+        | some q => promoPieces.contains q
+        | none => false
+      else m.promo.isNone) &&
+      ((m.dst.file - m.src.file == 0 && m.dst.rank - m.src.rank == p.stm.fwd && p.empty m.dst ||
+            m.dst.file - m.src.file == 0 && m.dst.rank - m.src.rank == 2 * p.stm.fwd && m.src.rank == p.stm.pawnRank &&
+                p.empty m.dst &&
+              match sq? m.src.file (m.src.rank + p.stm.fwd) with
+              | some x => p.empty x
+              | none => false) ||
+          (m.dst.file - m.src.file).natAbs == 1 && m.dst.rank - m.src.rank == p.stm.fwd &&
+            p.colorAt m.dst == some p.stm.other ||
+        (m.dst.file - m.src.file).natAbs == 1 && m.dst.rank - m.src.rank == p.stm.fwd && p.empty m.dst &&
+          match sq? m.dst.file m.src.rank with
+          | some q => p.ep == some q && p.has q Piece.pawn p.stm.other
+          | none => false)) =
+    true) : Shape p m := by
+  simp only [Bool.and_eq_true, Bool.or_eq_true, beq_iff_eq, Pos.empty, Option.isNone_iff_eq_none] at h
+  obtain ⟨hpr, h⟩ := h
+  obtain ⟨pc', hmv, hpc, hlast, hlast'⟩ := pawn_promo hb hpr
+  have hd' := colorAt_ne_iff.mp hd
+  have hne := src_ne_dst hb hd'
+  have hnc : isCastle p m = false := by simp [isCastle, hb]
+  have hpc2 : pc' = .pawn ∨ (Piece.pawn = Piece.pawn ∧ pc' ≠ .pawn ∧ pc' ≠ .king) := by
+    rcases hpc with h | h
+    · exact Or.inl h
+    · exact Or.inr ⟨rfl, h⟩
+  rcases h with ((h | h) | h) | h
+  · -- single step
+    obtain ⟨⟨hf, hr⟩, he⟩ := h
+    have hep : isEnPassant p m = false := by
+      have : m.src.file = m.dst.file := by omega
+      simp [isEnPassant, this]
+    refine Shape.normal .pawn pc' hb hd' hne hpc2 (fun h => absurd he h) (fun _ => ⟨hlast, Or.inl hr⟩) ?_
+    rw [apply_board_normal hep hnc, hmv]
+  · -- double step
+    obtain ⟨⟨⟨⟨hf, hr⟩, hsr⟩, he⟩, hx⟩ := h
+    have hep : isEnPassant p m = false := by
+      have : m.src.file = m.dst.file := by omega
+      simp [isEnPassant, this]
+    have hpawn : pc' = .pawn := by
+      apply hlast'
+      have := Sq.rank_bounds m.src
+      cases hc : p.stm <;> simp only [hc, Color.fwd, Color.pawnRank, Color.homeRank, Color.lastRank, Color.other] at * <;> omega
+    have hx' : ∃ x, sq? m.src.file (m.src.rank + p.stm.fwd) = some x ∧ p.board x = none := by
+      split at hx
+      · rename_i x hx0; exact ⟨x, hx0, Option.isNone_iff_eq_none.mp hx⟩
+      · cases hx
+    refine Shape.normal .pawn pc' hb hd' hne hpc2 (fun h => absurd he h)
+      (fun _ => ⟨hlast, Or.inr ⟨hr, hsr, by omega, he, hpawn, hx'⟩⟩) ?_
+    rw [apply_board_normal hep hnc, hmv]
+  · -- capture
+    obtain ⟨⟨hf, hr⟩, hcol⟩ := h
+    have hne' : p.board m.dst ≠ none := by
+      intro h0; simp [Pos.colorAt, h0] at hcol
+    have hep : isEnPassant p m = false := by
+      have : (p.board m.dst).isNone = false := by
+        cases h0 : p.board m.dst with
+        | none => exact absurd h0 hne'
+        | some _ => rfl
+      simp [isEnPassant, Pos.empty, this]
+    refine Shape.normal .pawn pc' hb hd' hne hpc2 (fun _ => ?_) (fun _ => ⟨hlast, Or.inl hr⟩) ?_
+    · simp [attacks, hb, hr, hf]
+    · rw [apply_board_normal hep hnc, hmv]
+  · -- en passant
+    obtain ⟨⟨⟨hf, hr⟩, he⟩, hx⟩ := h
+    split at hx
+    · rename_i q hq
+      simp only [Bool.and_eq_true, beq_iff_eq, Pos.has] at hx
+      have hep : isEnPassant p m = true := by
+        have : m.src.file ≠ m.dst.file := by omega
+        simp [isEnPassant, hb, this, Pos.empty, he]
+      have hqs : q ≠ m.src := by
+        intro e; rw [e, hb] at hx
+        have := hx.2
+        simp only [Option.some.injEq, Prod.mk.injEq, true_and] at this
+        exact Color.other_ne _ this.symm
+      have hqd : q ≠ m.dst := by
+        intro e; rw [e, he] at hx; cases hx.2
+      have hk : pc' ≠ .king := by
+        rcases hpc with h | h
+        · rw [h]; decide
+        · exact h.2
+      refine Shape.ep q pc' hb he hx.2 hqs hqd hne hk hlast hr ?_
+      rw [apply_board_ep hep hnc hq, hmv]
+    · cases hx
 
 end Closure
 end Chess
